@@ -4,6 +4,7 @@ CONSTANTS
   MaxLen = 3
   MaxCrash = 2
   SaveBeforeSend = FALSE
+  ApplyAfterSave = TRUE
   Self = 1
   Peers = {2, 3}
-INVARIANTS PersistBeforeSend RestartOK
+INVARIANTS PersistBeforeSend RestartOK ApplyNotAheadOfSave
